@@ -87,9 +87,32 @@ pub fn run_case(ctx: &mut Ctx, fam: &str, _k: u64, r: &mut Rng) {
                 Some((_, o)) => o,
                 None => return,
             };
+            // one layer in six was constructed at other sizes and then given these parameters through parameters()
+            // (a pruned / widened layer, weights loaded from elsewhere): it computes with the parameters it holds
+            let built_as: Option<NetSpec> = if r.chance(1, 6) {
+                let l2 = match &l {
+                    LSpec::Dense { act, .. } => LSpec::Dense { inp: r.range(1, 5), out: r.range(1, 5), act: *act },
+                    LSpec::Conv { stride, act, .. } => LSpec::Conv { filters: (r.range(1, 3), r.range(1, 2), r.range(1, 3), r.range(1, 3)), stride: *stride, act: *act },
+                    other => other.clone(),
+                };
+                ctx.count("layers_constructed_at_other_sizes", 1);
+                Some(NetSpec { layers: vec![l2], in_dims: in_dims.clone(), ce: false, lr: 0.0 })
+            } else {
+                None
+            };
+            let first_params = built_as.as_ref().map(|s2| gen_params(r, s2, true));
             let res = guard(|| {
                 let a = Acts::new();
-                let mut layers = build_layers(&spec, &a, &params);
+                let mut layers = match (&built_as, &first_params) {
+                    (Some(s2), Some(p2)) => {
+                        let mut ls = build_layers(s2, &a, p2);
+                        for (p, t) in ls[0].parameters().into_iter().zip(&params) {
+                            *p = arr_t(t).tracked();
+                        }
+                        ls
+                    }
+                    _ => build_layers(&spec, &a, &params),
+                };
                 // parameters read back through the public accessor
                 let read: Vec<Obs> = layers[0].parameters().iter().map(|p| Obs::of(p)).collect();
                 let out = layers[0].forward(arr_t(&input));
